@@ -168,7 +168,7 @@ Definition L_NINF : str := [45;73;78;70].
 Definition L_NaN : str := [78;97;78].
 
 (* mantissa [ (e|E) [sign] digits+ ] ; canonical form: sign digits "E" exponent with digits free of
-   leading and trailing zeros; zero keeps its sign (IEEE distinguishes the two zeros) *)
+   leading and trailing zeros; positive and negative zero are equal *)
 Definition split_exp (s : str) : str * option str :=
   let (m, rest) := span (fun c => negb (N.eqb c 101 || N.eqb c 69)) s in
   match rest with [] => (m, None) | _ :: e => (m, Some e) end.
@@ -192,7 +192,7 @@ Definition canon_float (s : str) : option str :=
       let d := strip_zeros_r all in
       let tz := Z.of_nat (length all - length d) in
       match d with
-      | [] => Some ((if neg then [45] else []) ++ [48])
+      | [] => Some [48]                       (* the two zeros are equal values *)
       | _ => Some ((if neg then [45] else []) ++ d ++ [69] ++ py_str_of_Z (ex - Z.of_nat (length fr) + tz)%Z)
       end
   | _, _ => None
